@@ -387,6 +387,21 @@ impl<'a, 'b> G<'a, 'b> {
         };
         let mut s = String::new();
         let mut forms = vec![];
+        // strings made of the characters of a tstring only (X.680 12.17: digits and
+        // `+-:.,/CDHMRPSTWYZ`): the lexer reads them as time values first
+        if kind != StrKind::Numeric && len > 0 && self.src.chance(14) {
+            let t: Vec<char> = "0123456789+-:.,/CDHMRPSTWYZ".chars().collect();
+            for i in 0..len.min(8) {
+                // digits around the punctuation, so that `1,5` and `10,000` come up
+                let c = if i % 2 == 0 || self.src.chance(40) { t[self.src.pick(10)] } else if self.src.chance(35) { ',' } else { t[10 + self.src.pick(t.len() - 10)] };
+                s.push(c);
+            }
+            forms.push("str:time-like".into());
+            if s.contains(',') {
+                forms.push("str:time-like with comma".into());
+            }
+            return (s, forms);
+        }
         for _ in 0..len {
             let c = if alphabet.contains(&'"') && self.src.chance(12) {
                 '"'
